@@ -130,15 +130,17 @@ def vectors(run):
             for h in ('_round', '_roundup', '_rounddown'):
                 V.append((h, (x, n)))
         V.append(('_normalize_float_number', (x / 100,)))
-        if rec['s'] == 0:
-            # the same number held as a float, after and before the integer (results keep the kind of their own argument)
+        if float(x).is_integer():
+            # the same whole number held as an int and as a float, in both orders (a result keeps the kind of its own argument)
+            xi = int(x)
             for n in (-1, 0, 2):
                 for h in ('_round', '_roundup', '_rounddown'):
-                    V.append((h, (float(x), n)))
+                    V.append((h, (xi, n)))
+                    V.append((h, (float(xi), n)))
             for n in (-2, 1):
                 for h in ('_round', '_roundup', '_rounddown'):
-                    V.append((h, (float(x), n)))
-                    V.append((h, (x, n)))
+                    V.append((h, (float(xi), n)))
+                    V.append((h, (xi, n)))
     # C15
     th = 'FALSE'
     for kind in ('DATE', 'EDATE', 'DATEDIF', 'NWD'):
